@@ -83,6 +83,12 @@ claim("C17", "exploration", "part",
       "Held on the calls and scenarios of the run.",
       "DESIGN.md §7 C17")
 
+claim("C06", "exploration", "om",
+      "runtime monitor of the real OffsetManager against the simulated group coordinator: recorded call/return history of MarkOffset/ResetOffset/NextOffset per partition, commit observations taken at the om.flush/om.built hooks, final store reads; per-partition porcupine linearizability check against a sequential register model, conservation checks on the requests the coordinator received, race detector",
+      "300 (quick) / 5000 (thorough) seeded histories: 1-4 partitions, 1-4 marker goroutines, auto-commit ticker or one manual committer, per-commit coordinator behaviour word (accept, error classes, partial errors, omitted blocks, dropped connection, coordinator moved), retention, retry budgets, steering that parks the committer between building and handling a commit until marks land inside the window. After the behaviour word is exhausted the stored offset/metadata must equal the latest mark (lost-mark clause), also for manual commits.",
+      "Held on the histories of the run; one committer at a time as the statement assumes; porcupine timeouts are inconclusive.",
+      "DESIGN.md §7 C06")
+
 def main():
     props = [json.loads(l) for l in open(os.path.join(HERE, "properties.jsonl"))]
     ids = [p["id"] for p in props]
